@@ -166,6 +166,7 @@ if (jcol == BADPAN)
 	pmod = Gstat->procstat[pnum].fcops;
 #endif
 	    
+	SLU_MT_VEV(VE_READ_SN_BEGIN, pnum, fsupc, krep);
 	if ( nsupc >= colblk && nrow >= rowblk ) {
 	    /* 2-D block update */
 #ifdef GEMV2
@@ -190,6 +191,7 @@ if (jcol == BADPAN)
 #endif
 	}
 	
+	SLU_MT_VEV(VE_READ_SN_END, pnum, fsupc, krep);
 #ifdef PREDICT_OPT
 	pmod = Gstat->procstat[pnum].fcops - pmod;
 	kid = (Glu->pan_status[krep].size > 0) ?
@@ -247,6 +249,7 @@ if (jcol == BADPAN)
 	col_lsub = panel_lsub;
 
 	/* Wait for the supernode, and collect wait-time statistics. */
+	SLU_MT_VEV(VE_FLAG_CHECK, pnum, kcol, &pxgstrf_shared->spin_locks[kcol]);
 	if ( pxgstrf_shared->spin_locks[kcol] ) {
 #ifdef PROFILE
 	    TIC(t1);
@@ -282,6 +285,7 @@ if (jcol == BADPAN)
 	    krep = SUPER_REP( ksupno );
 	    kcol = etree[kcol];
 	    if ( kcol >= jcol ) break;
+	    SLU_MT_VEV(VE_FLAG_CHECK, pnum, kcol, &pxgstrf_shared->spin_locks[kcol]);
 	    if ( pxgstrf_shared->spin_locks[kcol] ) {
 #ifdef PROFILE
 		TIC(t1);
@@ -386,6 +390,7 @@ printf("(%d) pzgstrf_panel_bmod[fills] xlsub %d, xlsub_end %d, #lsub[%d] %d\n",
 	nsupc = krep - fsupc + 1;
 	nsupr = xlsub_end[fsupc] - xlsub[fsupc];
 	nrow = nsupr - nsupc;
+	SLU_MT_VEV(VE_READ_SN_BEGIN, pnum, fsupc, krep);
 	if ( nsupc >= colblk && nrow >= rowblk ) {
 	    /* 2-D block update */
 #ifdef GEMV2
@@ -410,6 +415,7 @@ printf("(%d) pzgstrf_panel_bmod[fills] xlsub %d, xlsub_end %d, #lsub[%d] %d\n",
 #endif
 	}
 
+	SLU_MT_VEV(VE_READ_SN_END, pnum, fsupc, krep);
 #ifdef PREDICT_OPT
 	pmod = Gstat->procstat[pnum].fcops - pmod;
 	kid = (pxgstrf_shared->pan_status[krep].size > 0) ?
